@@ -159,6 +159,12 @@ proof fn lemma_bits_input0(a: u8, b: u16)
     })) by(bit_vector);
 }
 
+/// every KeyCode discriminant is at most 767 (one query over the enum, reused by the constructors)
+proof fn lemma_kc_le(kc: KeyCode)
+    ensures (kc as u16) <= 767,
+{
+}
+
 //@ item keyberon/src/action/switch.rs fn to_u16 in `BooleanOperator`
 //@@ wrap impl BooleanOperator
 //@@ ret r
@@ -170,8 +176,8 @@ proof fn lemma_bits_input0(a: u8, b: u16)
 //@@ ret r
 //@@ spec
     ensures r.0 == kc as u16, r.0 < 850,
-//@@ before 1 `Self(kc as u16`
-    proof { lemma_bits_key(kc as u16); }
+//@@ before 1 `assert!((kc as u16) <= KEY_MAX);`
+    proof { lemma_kc_le(kc); lemma_bits_key(kc as u16); }
 
 //@ item keyberon/src/action/switch.rs fn new_key_history in `OpCode`
 //@@ wrap impl OpCode
@@ -182,8 +188,9 @@ proof fn lemma_bits_input0(a: u8, b: u16)
         r.0 >= 0x8000,
         r.0 & 0x0FFF == kc as u16,
         (r.0 & 0x7000) >> 12 == key_recency as u16,
-//@@ before 1 `Self((kc as u16`
+//@@ before 1 `assert!((kc as u16) <= MAX_OPCODE_LEN);`
     proof {
+        lemma_kc_le(kc);
         let k = kc as u16; let n = key_recency as u16;
         assert(k <= 0x0FFF && n <= 7 ==> ((k & 0x0FFF) | 0x8000u16 | (n << 12)) >= 0x8000
             && ((k & 0x0FFF) | 0x8000u16 | (n << 12)) & 0x0FFF == k
